@@ -29,7 +29,7 @@ def tokenize(source: str):
         token = field(scanner, ctx) or \
             repeater_placeholder(scanner) or \
             repeater_number(scanner) or \
-            repeater(scanner) or \
+            repeater(scanner, ctx) or \
             white_space(scanner) or \
             literal(scanner, ctx) or \
             operator(scanner) or \
@@ -132,10 +132,10 @@ def operator(scanner: Scanner):
         return tokens.Operator(op, inc_pos(scanner), scanner.pos)
 
 
-def repeater(scanner: Scanner):
+def repeater(scanner: Scanner, ctx: dict):
     "Consumes node repeat token from current scanner position and returns its parsed value"
     start = scanner.pos
-    if scanner.eat(Chars.Asterisk):
+    if is_allowed_repeater(scanner.peek(), ctx) and not ctx['quote'] and scanner.eat(Chars.Asterisk):
         scanner.start = scanner.pos
         count = 1
         implicit = False
